@@ -920,6 +920,87 @@ def run_cli_symlink(chk, base):
         shutil.rmtree(sb, ignore_errors=True)
     chk.cov["cli_symlink_scenarios"] = n
 
+def layouts(chk):
+    base = ["VF", "FV", "FVF", "VFF", "FFV", "VVF", "VFV", "FVV", "V", "VV", "FVFVF", "VFVF"]
+    if not chk.quick():
+        import itertools
+        base += ["".join(t) for n in (3, 4) for t in itertools.product("VF", repeat=n)]
+    return sorted(set(base), key=lambda x: (len(x), x))
+
+def run_cli_layouts(chk, base):
+    """Output lists mixing virtual and file nodes in every order: null builds run nothing; damaging the file output at
+    each position re-runs the producer exactly once (stored info i belongs to declared output i)."""
+    llb = vlib.llbuild_bin()
+    nl = nb = 0
+    for lay in layouts(chk):
+        sb = os.path.join(base, "cli", "layout-" + lay)
+        os.makedirs(sb)
+        outs = [("<v%d>" % i) if k == "V" else ("f%d.txt" % i) for i, k in enumerate(lay)]
+        files = [o for o in outs if not o.startswith("<")]
+        g = new_def(name=b"G", outputs=[o.encode() for o in outs], args=SH + [script("G", outs)])
+        h = new_def(name=b"H", inputs=[b"h.in"], outputs=[b"h.out"], args=SH + [script("H", ["h.out"])])
+        allc = new_def(tool="phony", name=b"all", inputs=[o.encode() for o in outs] + [b"h.out"], outputs=[b"<all>"], args=[])
+        open(os.path.join(sb, "h.in"), "w").write("h\n")
+        bf = os.path.join(sb, "build.llbuild")
+        open(bf, "wb").write(render_file([g, h, allc], targets={b"": [b"<all>"]}))
+        log = os.path.join(sb, "runs.log")
+        history = []
+        def build(label):
+            nonlocal nb
+            if os.path.exists(log):
+                os.remove(log)
+            rc, out, err = vlib.sh([llb, "buildsystem", "build", "--serial", "--chdir", sb, "--db", "build.db", "-f", bf], timeout=120)
+            nb += 1
+            ran = sorted(open(log).read().split()) if os.path.exists(log) else []
+            history.append(dict(step=label, rc=rc, executed=ran, stderr=err[-300:]))
+            return rc, ran
+        def fail(key, what):
+            chk.violation(key, what, dict(outputs=outs, layout=lay, sandbox=sb, file=bf, history=history,
+                                          how="llbuild buildsystem build --serial --chdir <sandbox> --db build.db -f build.llbuild, one process per step; executed = tags appended to runs.log"),
+                          found_input=True, broken="c09 oracle on llbuild buildsystem build (output list mixing virtual and file nodes)")
+        nl += 1
+        rc, ran = build("first")
+        if rc != 0 or ran != ["G", "H"]:
+            fail("cli-first-build", "the first build with outputs %s executed %s (exit %d)" % (outs, ran, rc)); continue
+        bad = False
+        for k in range(2):
+            rc, ran = build("null-%d" % k)
+            chk.count(("cli-layout", lay, "null"))
+            if rc != 0 or ran:
+                fail("cli-null-build-executes", "a command with outputs %s executed again (%s) in a build immediately after a successful build with nothing changed" % (outs, ran))
+                bad = True
+                break
+        if bad:
+            continue
+        for n, f in enumerate(files):
+            path = os.path.join(sb, f)
+            how = ["delete", "modify", "touch"][(n + len(lay)) % 3]
+            if how == "delete":
+                os.remove(path)
+            elif how == "modify":
+                open(path, "a").write("tampered\n")
+            else:
+                os.utime(path, ns=(10**18 + n, 10**18 + n))
+            rc, ran = build("%s-%s" % (how, f))
+            chk.count(("cli-layout", lay, how, outs.index(f)))
+            if rc != 0 or ran != ["G"]:
+                fail("cli-not-rerun-damaged-output" if "G" not in ran else "cli-spurious-rerun-damaged-output",
+                     "after `%s` of output %s (position %d of %s) the build executed %s instead of exactly the producer G" % (how, f, outs.index(f), outs, ran))
+                bad = True
+                break
+            rc, ran = build("null-after-%s" % f)
+            chk.count(("cli-layout", lay, "null-after", outs.index(f)))
+            if rc != 0 or ran:
+                fail("cli-null-build-executes", "after the producer of %s re-ran, a build with nothing changed executed %s" % (outs, ran))
+                bad = True
+                break
+        if not bad:
+            if lay == "FVF":
+                chk.sample(dict(kind="cli-layout", outputs=outs, executed_per_step=[(x["step"], x["executed"]) for x in history]))
+            shutil.rmtree(sb, ignore_errors=True)
+    chk.cov["cli_output_layouts"] = nl
+    chk.cov["cli_layout_builds"] = nb
+
 # ---------------------------------------------------------------- entry points
 
 def run(chk):
@@ -932,6 +1013,7 @@ def run(chk):
     run_signatures(chk, drv, model, base)
     run_cli(chk, base)
     run_cli_symlink(chk, base)
+    run_cli_layouts(chk, base)
     if not chk.violations:
         shutil.rmtree(os.path.join(base, "defs"), ignore_errors=True)
         shutil.rmtree(os.path.join(base, "nodes"), ignore_errors=True)
@@ -944,7 +1026,7 @@ def run(chk):
     return chk.finish(level="proof",
                       rule="signatures: random shell / phony / mkdir definitions over an alphabet of YAML-hostile atoms (quotes, escapes, control bytes, multi-byte UTF-8, empty strings, duplicate and shared node names, explicit signature) loaded by the real loader; "
                            "every definition: getSignature() == fold of llvm::hash_combine over the model tokens; pairs: every applicable single-attribute edit kind incl. every list-boundary move and adjacent-argument boundary move; "
-                           "symlink commands with and without link-output-path (virtual declared output pattern), repair flag, one-attribute pairs (output, contents, inputs relevant; link-output-path, repair flag, name unhashed); non-trivial = every definition / pair (distinct by model token list); cli: one scenario per edit kind, each = first build, null build, edited build, null build in four processes over one database; 12 symlink scenarios (executions read from the LINK lines llbuild prints)",
+                           "symlink commands with and without link-output-path (virtual declared output pattern), repair flag, one-attribute pairs (output, contents, inputs relevant; link-output-path, repair flag, name unhashed); non-trivial = every definition / pair (distinct by model token list); cli: one scenario per edit kind, each = first build, null build, edited build, null build in four processes over one database; 12 symlink scenarios (executions read from the LINK lines llbuild prints); output lists mixing virtual and file nodes in every order (quick: 12 layouts, thorough: all of length <= 4): two null builds, then each file output deleted / modified / touched in turn",
                       trusted=["ideal hash: llvm::hash_combine collision-free on compared token lists",
                                "hand-written model coq/BSys/Sig.v, tied by the exact 64-bit correspondence check",
                                "harness/cpp/sig_driver.cpp", "extraction (ExtrOcamlBasic) + ocaml/vmodel_sig.ml"])
